@@ -90,9 +90,10 @@ def main() -> int:
     ok = True
     try:
         extra = [f for f in os.listdir(src) if f.startswith(args.mut + "_demo") or f.startswith("_")]
+        os.makedirs(os.path.join(wt, "mutations"), exist_ok=True)
         for f in extra:
-            shutil.copy(os.path.join(src, f), os.path.join(wt, f))
-        demo_name = os.path.basename(demo)
+            shutil.copy(os.path.join(src, f), os.path.join(wt, "mutations", f))
+        demo_name = "mutations/" + os.path.basename(demo)
         r0 = sh(f"./py {demo_name}", cwd=wt, timeout=1800)
         log["steps"].append({"demo on pristine": r0.returncode})
         if r0.returncode != 0:
